@@ -112,8 +112,14 @@ def gen_witness_model(rng, props_only=False):
                     posts.append("props %s %s %s" % (prel, a, b))
                 else:
                     # c*(x_a - x_b) rel K  only when K == 0 can it be written as a plain comparison; otherwise use flin
+                    M0 = margin(step, [Fraction(1), Fraction(-1)], [B[x] for x in xs], [isf[x] for x in xs])
                     if K == 0 and rel == "eq":
                         posts.append("props eq x%d x%d" % (xs[0], xs[1]))
+                    elif rel != "eq" and rng.random() < 0.6 and abs(w[xs[0]] - w[xs[1]]) >= M0:
+                        # a plain comparison of two variables that the witness satisfies with the row margin
+                        a, b = (xs[0], xs[1]) if w[xs[0]] < w[xs[1]] else (xs[1], xs[0])
+                        if rng.random() < 0.5: posts.append("props %s x%d x%d" % (rng.choice(["lt", "leq"]), a, b))
+                        else: posts.append("props %s x%d x%d" % (rng.choice(["gt", "geq"]), b, a))
                     else:
                         posts.append(_flin(rel, cs, xsn, K))
             else:
@@ -144,7 +150,7 @@ def gen_witness(tier, rng):
             out.append(" ; ".join([str(prec), "|".join(decls)] + posts + ["solve", "to 400"]))
     return out
 
-C07_CLASSES = ("float_intlin_single", "float_cmp_intlin")
+C07_CLASSES = ("float_intlin_single", "float_cmp_intlin", "mixed_strict_int_succ")
 def judge(line, impl, spec):
     if impl.startswith("err NoSolution"):
         return "solve answered NoSolution on a model built around a robust witness"
